@@ -138,7 +138,16 @@ def wrap_item_line(src, mode):
     """shadow prelude / core names in the scope of the derive_ex item: a glob import (shadows the prelude) or local items.
     The drivers use absolute paths for everything the hostile module redefines."""
     first, rest = src.split("\n", 1)
-    add = "    use crate::hostile::*;" if mode == "shadow_glob" else "    " + LOCAL_DEFS
+    if mode == "shadow_glob":
+        add = "    use crate::hostile::*;"
+    else:
+        # two local items of one name are a user-side error (E0428), not a question of hygiene: a hostile definition is left out where
+        # the module itself defines an item of that name (the life family names its types `Hash`, `Clone`, `Debug`, .. in one guise)
+        defs = re.findall(r"#\[allow\([^)]*\)\] pub (?:struct|trait|enum|mod) (\w+)[^;{]*(?:;|\{\}) ", LOCAL_DEFS)
+        own = set(re.findall(r"\b(?:struct|enum|union|trait|type|mod)\s+(\w+)", rest))
+        add = "    " + "".join(m.group(0) for m in re.finditer(r"#\[allow\([^)]*\)\] pub (?:struct|trait|enum|mod) (\w+)[^;{]*(?:;|\{\}) ", LOCAL_DEFS)
+                               if m.group(1) not in own)
+        assert len(defs) == 21, defs
     return first + "\n" + add + "\n" + rest
 
 
